@@ -1,5 +1,5 @@
 """C09 - every decode failure is an UnmarshalingException."""
-from pbt import canon, decode_domain as D
+from pbt import canon, decode_domain as D, optchild
 from pbt.lib import UnmarshalingException, frame
 from pbt import fuzzrun
 from pbt.runner import Component, Violation, lib_site
@@ -117,6 +117,12 @@ COMPONENTS = [
     Component('wellformed', check, strategy=D.wellformed_cases,
               budget={'quick': 4800, 'thorough': 160000},
               describe='well-formed wire frames without any fault'),
+    Component('interpreter-flags', optchild.flagged('C09', check),
+              bulk=optchild.make_bulk('C09', ['truncs-all', 'hostile-keys'],
+                                      flags=('-bb',)),
+              distinct_by_construction=True, shards={'quick': 1, 'thorough': 1},
+              describe='payload truncations and hostile keys in a child interpreter '
+                       'started with -bb (bytes warnings are errors)'),
     Component('hostile-keys', check, cases=D.hostile_key_cases,
               distinct_by_construction=True, exhaustive=True,
               describe='templating-hostile table keys x every way a value can fail x '
